@@ -19,7 +19,7 @@ Definition dev_fooled_nil (i : input) := fooled i [] [].
 
 (* ================================================================== MinPathCoverCycles *)
 Definition deviates_MinPathCoverCycles (i : input) :=
-  dev_cov i || dev_expand i || negb (search_enters i) || dev_fooled_nil i || dev_fooled_st i.
+  dev_cov i || dev_expand i || negb (search_enters i) || dev_fooled_st i.
 Theorem validate_sound_MinPathCoverCycles i :
   nat_st i = true -> validate_MinPathCoverCycles i = RaiseValueError -> in_domain_MinPathCoverCycles i = false.
 Proof.
